@@ -82,12 +82,13 @@ BOUND_READER = "handler/bound-method-reader-drops-read_args"
 
 
 class MFile:
-    __slots__ = ("path", "fs", "t0", "t1", "attrs", "stored")
+    __slots__ = ("path", "fs", "t0", "t1", "attrs", "stored", "plain")
 
-    def __init__(self, path, fs, t0, t1, attrs, stored):
+    def __init__(self, path, fs, t0, t1, attrs, stored, plain=None):
         self.path, self.fs = path, fs
         self.t0, self.t1 = t0, t1
         self.attrs, self.stored = attrs, stored
+        self.plain = plain      # what was written (None for moved files)
 
     def __repr__(self):
         return "MFile(%r, %s..%s, %r)" % (self.path, self.t0, self.t1,
@@ -481,7 +482,7 @@ class World:
             ctx.label("overwrite")
         t0, t1 = G.model_times(tpl, s, e)
         mf = MFile(path, i, t0, t1, attrs,
-                   self.stored_for(spec, plain, call_args))
+                   self.stored_for(spec, plain, call_args), plain)
         self.files[path] = mf
         self.writes += 1
         self.verify(before, {path}, "write")
@@ -855,6 +856,54 @@ class World:
         self.verify(before, touched, "move-failed-write")
         self.stop = True
 
+    def op_mirror(self, op):
+        """copy a whole fileset, rewrite some originals with other content
+        of the same size, copy again to the same target: every copy must
+        hold what its original holds NOW"""
+        ctx = self.ctx
+        n = len(self.specs)
+        i = self.pick_fs(op["fs"] % n)
+        if i is None or n < 2:
+            ctx.label("noop")
+            return
+        src = self.specs[i]
+        order = [(op["to"] + k) % n for k in range(n)]
+        order = [j for j in order if j != i]
+        same = [j for j in order if (self.specs[j]["kind"],
+                                     self.specs[j]["comp"]) == (
+                                         src["kind"], src["comp"])]
+        j = (same or order)[0]
+        copy_all = {
+            "op": "move", "fs": i, "to": j, "target_as": op["target_as"],
+            "copy": True, "convert": False, "aim": None,
+            "worker_type": op["worker_type"],
+            "sel": {"kind": "all", "start": None, "end": None,
+                    "no_files_error": None}}
+        self.op_move(copy_all)
+        if self.stop:
+            return
+        originals = [f for f in self.files_of(i) if f.plain is not None]
+        rewritten = 0
+        for k in sorted({k % len(originals) for k in op["rewrite"]}
+                        if originals else ()):
+            f = originals[k]
+            plain = M.same_size_variant(f.plain)
+            if src.get("refuse") and M.is_poison(plain):
+                continue
+            before = self.snapshot()
+            size = os.path.getsize(f.path)
+            self.fs[i].write(self.typhon_data(plain), f.path)
+            f.stored = self.stored_for(src, plain)
+            f.plain = plain
+            self.verify(before, {f.path}, "rewrite")
+            rewritten += 1
+            if os.path.getsize(f.path) == size and sha(f.path) != before[
+                    f.path]:
+                ctx.label("rewrite-same-size")
+        if rewritten:
+            ctx.label("mirror-again" if same else "mirror-again-converting")
+        self.op_move(copy_all)
+
     def op_delete(self, op):
         ctx = self.ctx
         i = self.pick_fs(op["fs"] % len(self.specs))
@@ -881,7 +930,8 @@ class World:
 
     def run(self):
         ops = {"write": self.op_write, "read": self.op_read,
-               "move": self.op_move, "delete": self.op_delete}
+               "move": self.op_move, "delete": self.op_delete,
+               "mirror": self.op_mirror}
         for k, op in enumerate(self.case["ops"]):
             self.step = k
             try:
